@@ -77,7 +77,8 @@ def body_effects(f, facts):
             else:
                 p = F.call_path(t)
                 if not (facts.bypath.get(p) or facts.bypath.get(t['callee']['path'])):
-                    out.append(('ext', p, t.get('at')))
+                    if not any(not ck.startswith('ext:') for ck in facts.callee_keys(f, t)):     # a local trait method resolved by class hierarchy is no external leaf
+                        out.append(('ext', p, t.get('at')))
     for p in facts.fnitems_of(f):
         if p not in facts.bypath:
             out.append(('ext', p, f['at']))
